@@ -166,6 +166,35 @@ def unguarded(trees, cls, member, mutex, mutexes):
     return sorted(out)
 
 
+REMOVERS = ('erase', 'clear', 'extract', 'merge')
+
+
+def erasers(trees, cls, member):
+    """member functions (constructors, destructor, assignment and swap of the whole object aside) that take entries out
+    of the container `member`: a call of erase / clear / extract / merge on it, an assignment to it or a swap of it.
+    The dispatcher machine (CLDispConc.v) relies on: a list that a lookup has found stays where it is."""
+    out = set()
+    for nm, fn, body, public in class_functions(trees, cls):
+        if nm in ('constructor', 'destructor', 'operator=', 'swap'):
+            continue
+        for x in walk(body):
+            k = x.get('kind')
+            if k in ('MemberExpr', 'CXXDependentScopeMemberExpr') and member_name(x) in REMOVERS:
+                base = kids(x)
+                if base and member_name(strip(base[0])) == member:
+                    out.add(nm)
+            if k in ('BinaryOperator', 'CXXOperatorCallExpr') and (x.get('opcode') == '=' or k == 'CXXOperatorCallExpr'):
+                ks = kids(x)
+                if k == 'CXXOperatorCallExpr':
+                    ks = ks[1:]
+                if ks and member_name(strip(ks[0])) == member and (x.get('opcode') == '=' or any('operator=' in str(y.get('name', '')) + str((y.get('referencedDecl') or {}).get('name', '')) for y in walk(kids(x)[0]))):
+                    out.add(nm)
+            if k in ('CallExpr',) and any((y.get('name') == 'swap' or member_name(y) == 'swap') for y in walk(kids(x)[0])):
+                if any(member_name(strip(a)) == member for a in kids(x)[1:]):
+                    out.add(nm)
+    return sorted(out)
+
+
 SITES = [
     # (definition name, header, class, member, mutex, all mutex names of the class)
     ('dispatcher_map_unguarded', 'eventpp/eventdispatcher.h', 'EventDispatcherBase', 'eventCallbackListMap', 'listenerMutex', ('listenerMutex',)),
@@ -194,6 +223,11 @@ def leaf_locks(out):
             cache[key] = clang_ast('#include "%s"\n' % header, cls)
         lst = unguarded(cache[key], cls, member, mutex, mutexes)
         lines.append('(* %s::%s, guarded by %s *)' % (cls, member, mutex))
+        lines.append('Definition %s : list string := [%s].' % (name, '; '.join('"%s"' % x for x in lst)))
+    for name, header, cls in (('dispatcher_map_erasers', 'eventpp/eventdispatcher.h', 'EventDispatcherBase'),
+                              ('heter_dispatcher_map_erasers', 'eventpp/hetereventdispatcher.h', 'HeterEventDispatcherBase')):
+        lst = erasers(cache[(header, cls)], cls, 'eventCallbackListMap')
+        lines.append('(* %s: member functions (whole-object construction, assignment, swap, destruction aside) that take entries out of eventCallbackListMap *)' % cls)
         lines.append('Definition %s : list string := [%s].' % (name, '; '.join('"%s"' % x for x in lst)))
     out['GenLocks.v'] = '\n'.join(lines) + '\n'
 
